@@ -155,6 +155,19 @@ AA_BODIES = {
 }
 AA_GENERAL = ['PEO', 'OH', 'ME', 'PE', 'PS', 'HT', 'CP', 'AC', 'MA', 'W', 'WH', 'ION', 'AM', 'ENE', 'FR', 'CH',
               'PH', 'PPH']
+# bodies with FALSY annotations (weight 0 on explicit hydrogens and on heavy atoms): a copy must carry the value the
+# template defines, not the value of a neighbour and not the default.  Kept out of AA_GENERAL (used by zero_weight_cases
+# only) so that the streams of the existing families do not change.
+AA_BODIES.update({
+    'WZ': dict(t='[O;0.5]([H;0])[C;0.1]{0}C{1}O', at=[2, 3], cap=[2, 2], dbl=[0, 0]),
+    'HZ': dict(t='{0}C([H;0])C{1}', at=[0, 2], cap=[2, 3], dbl=[0, 0]),
+    'HZ2': dict(t='[H;0]C{0}([H;0])C{1}', at=[1, 3], cap=[1, 3], dbl=[0, 0]),
+    'HM': dict(t='C{0}([H;0])([H;0.3])C{1}', at=[0, 3], cap=[1, 3], dbl=[0, 0]),
+    'ZC': dict(t='{0}[CH2;0]C{1}', at=[0, 1], cap=[1, 3], dbl=[0, 0]),
+    'ZO': dict(t='[OH;0]C{0}C{1}', at=[1, 2], cap=[2, 3], dbl=[0, 0]),
+    'ZN': dict(t='{0}C[N;0]([H;0])C{1}', at=[0, 3], cap=[3, 3], dbl=[0, 0]),
+})
+AA_ZERO = ['WZ', 'HZ', 'HZ2', 'HM', 'ZC', 'ZO', 'ZN']
 
 # coarse bodies: n nodes, internal edges with orders, optional per-node annotation; every node is a slot
 CG_BODIES = {
@@ -256,10 +269,10 @@ def _cyclic(edges):
     return g.number_of_edges() > 0 and g.number_of_edges() >= g.number_of_nodes() - nx.number_connected_components(g) + 1
 
 
-def _pick_body(rng, need, all_atom, allow_arom=True, allow_dbl=True):
-    """A body whose slots can take `need` descriptors in total."""
+def _pick_body(rng, need, all_atom, allow_arom=True, allow_dbl=True, pool=None):
+    """A body whose slots can take `need` descriptors in total (all-atom bodies from `pool`, default AA_GENERAL)."""
     if all_atom:
-        names = [b for b in AA_GENERAL if sum(AA_BODIES[b]['cap']) >= need and (allow_arom or not AA_BODIES[b].get('arom'))
+        names = [b for b in (pool or AA_GENERAL) if sum(AA_BODIES[b]['cap']) >= need and (allow_arom or not AA_BODIES[b].get('arom'))
                  and (allow_dbl or b != 'ENE')]
         return rng.choice(names) if names else 'ME'
     names = [b for b in CG_GENERAL if CG_BODIES[b]['n'] * CG_CAP >= need]
@@ -283,8 +296,9 @@ def _fragment_text(name, body, fills, all_atom):
     return '#%s=%s' % (name, text), key
 
 
-def design_unique(rng, n, edges, all_atom, virtual=(), leftovers=True):
-    """Every (edge, unit of order) gets its own label pair.  Returns (names, block text, bonds) or None."""
+def design_unique(rng, n, edges, all_atom, virtual=(), leftovers=True, pool=None):
+    """Every (edge, unit of order) gets its own label pair.  Returns (names, block text, bonds) or None.
+    pool: the all-atom bodies to choose from (default AA_GENERAL)."""
     labels = _labels()
     cyc = _cyclic(edges)
     names = ['V%d' % i if i in virtual else 'N%d' % i for i in range(n)]
@@ -296,7 +310,7 @@ def design_unique(rng, n, edges, all_atom, virtual=(), leftovers=True):
     for i in range(n):
         if i in virtual:
             continue
-        bodies[i] = _pick_body(rng, need[i], all_atom, allow_arom=not cyc, allow_dbl=not cyc)
+        bodies[i] = _pick_body(rng, need[i], all_atom, allow_arom=not cyc, allow_dbl=not cyc, pool=pool)
         free[i] = {s['k']: s['cap'] for s in _slots(bodies[i], all_atom)}
         fills[i] = {}
     dbl = {i: {s['k']: s['dbl'] for s in _slots(bodies[i], all_atom)} for i in bodies}
@@ -442,10 +456,12 @@ def _with_virtual(rng, n, edges, where):
     return n + 1, new_edges, {v}, where
 
 
-def _emit_two_level(fam, sid, n, edges, design, all_atom, legacy, rng, virtual=(), vwhere=None, tags=()):
+def _emit_two_level(fam, sid, n, edges, design, all_atom, legacy, rng, virtual=(), vwhere=None, tags=(), pool=None):
     fn = {'unique': design_unique, 'homo': design_homo, 'free': design_free}[design]
     if design == 'homo':
         res = fn(rng, n, edges, all_atom, virtual, label=rng.choice(['', '', 'A', '7']))
+    elif design == 'unique' and pool is not None:
+        res = design_unique(rng, n, edges, all_atom, virtual, pool=pool)
     else:
         res = fn(rng, n, edges, all_atom, virtual)
     if res is None:
@@ -674,7 +690,7 @@ def _connected_partition(rng, n, edges, max_size=3):
     return groups
 
 
-def group_level(rng, names, edges, groups, prefix, labels):
+def group_level(rng, names, edges, groups, prefix, labels, reuse_names=False):
     """One intermediate level.  names/edges: the finer graph (node i is called names[i]); groups: partition.
     Returns (group names, quotient edges, block text).  Each crossing edge gets a fresh label pair, written with
     the order of the crossing edge; the quotient edge's order is the number of crossing edges."""
@@ -683,6 +699,9 @@ def group_level(rng, names, edges, groups, prefix, labels):
         for m in members:
             gid[m] = g
     gnames = ['%s%d' % (prefix, g) for g in range(len(groups))]
+    if reuse_names:
+        # a group is called like its first member: the same fragment name is then defined on two levels
+        gnames = [names[members[0]] for members in groups]
     fills = {g: {} for g in range(len(groups))}
     qcount = {}
     for u, v, o in edges:
@@ -713,7 +732,7 @@ def group_level(rng, names, edges, groups, prefix, labels):
     return gnames, qedges, '{' + ','.join(defs) + '}'
 
 
-def layered_from_two_level(rng, names, edges, block, all_atom, levels, cid, legacy=True, bonds=None):
+def layered_from_two_level(rng, names, edges, block, all_atom, levels, cid, legacy=True, bonds=None, reuse_names=False):
     """names/edges: base graph of the flat string; returns a case with 'flat' or None."""
     labels = ('q' + l for l in _labels())
     cur_names, cur_edges = list(names), list(edges)
@@ -732,7 +751,7 @@ def layered_from_two_level(rng, names, edges, block, all_atom, levels, cid, lega
                     groups.sort()
                     break
         try:
-            gnames, qedges, gblock = group_level(rng, cur_names, cur_edges, groups, 'GHK'[lv], labels)
+            gnames, qedges, gblock = group_level(rng, cur_names, cur_edges, groups, 'GHK'[lv], labels, reuse_names=reuse_names)
         except ValueError:
             return None
         if any(c > 3 for _, _, c in qedges):
@@ -1000,6 +1019,285 @@ def stereo_cases(tier, seed):
                 if not stereo_cut_ok(mol, cuts):
                     continue
                 yield {'id': 'stereo/%s/%s' % (name, '-'.join(map(str, cuts)) or 'uncut'), 'mol': name, 'cuts': list(cuts)}
+
+
+# =========================================================================================== falsy annotations (C02)
+ZERO_HAND = [
+    ('zero/h-on-weighted-o', '{[#A][#B]}.{#A=[O;0.5]([H;0])C[$],#B=[$]CO}', True),
+    ('zero/h-repeated', '{[#M]|3}.{#M=[$]C([H;0])C[$]}', True),
+    ('zero/h-and-heavy', '{[#A][#B][#A]}.{#A=[O;0.5]([H;0])[C;0][$],#B=[$]C([H;0])[$]}', True),
+    ('zero/heavy-only', '{[#A][#B]}.{#A=[OH;0]C[$],#B=[$][CH2;0]C}', True),
+    ('zero/cg-weight', '{[#A][#B]}.{#A=[#a;w=0][#b][$],#B=[$][#c;0;0][#d;w=0.5]}', False),
+    ('zero/cg-charge-weight', '{[#A]|2}.{#A=[>][#a;q=0;w=0][#b;1;0][<]}', False),
+]
+
+
+def zero_weight_cases(tier):
+    """Two-level strings whose fragments annotate explicit hydrogens and heavy atoms with weight 0 (a falsy value):
+    typed-in strings, and the 'unique' design on small base graphs with bodies from AA_ZERO only."""
+    for cid, s, aa in ZERO_HAND:
+        i = s.index('}.{')
+        yield {'id': 'hand/' + cid, 'base': None, 'base_str': s[:i + 1], 'blocks': _split_blocks(s[i + 2:]),
+               'all_atom': aa, 'legacy': True, 'valid': True, 'design': 'hand', 'bonds': None, 'tags': ['zero-weight']}
+    for n, edges0 in connected_graphs(3 if tier == 'quick' else 4):
+        edges = [(u, v, 1) for u, v in edges0]
+        sid = 'z%d_%s' % (n, ''.join('%d%d%d' % e for e in edges))
+        for r in range(4 if tier == 'quick' else 8):
+            rng = random.Random('zero|%s|%d' % (sid, r))
+            c = _emit_two_level('zero', sid + '.%d' % r, n, edges, 'unique', True, True, rng, tags=['zero-weight'], pool=AA_ZERO)
+            if c:
+                yield c
+
+
+# =========================================================================================== shared atoms (C02)
+# One design = fragments written as linear chains of atoms + the pairs of atoms that are ONE atom (`!`, a label of its
+# own per pair) + ordinary bonds (`$`, a label of its own per bond).  The fine graph is known by construction: its
+# atoms are the classes of template atoms under "is one atom with", an atom belongs to exactly the coarse nodes whose
+# fragment contains a template atom of its class, its bonds are the template bonds plus the ordinary bonds.
+# Atoms: all-atom symbol / coarse name; merged atoms have the same symbol and name (C / s).  No aromatic atoms
+# (finding C10-4/5), no annotations on shared atoms, no explicit hydrogens.
+_SH_CG = {'C': 'c', 'O': 'o', 'N': 'n', 'F': 'f', 'S': 'u'}
+SHARED_DESIGNS = {
+    # name: (fragments [(name, atoms)], shares [((frag, atom), (frag, atom))], bonds [((frag, atom), (frag, atom))],
+    #        extra zero-order base edges [(frag, frag)])
+    'pair': ([('A', 'OCC'), ('B', 'CCN')], [((0, 2), (1, 0))], [], []),
+    'pair-mid': ([('A', 'OCC'), ('B', 'NCF')], [((0, 1), (1, 1))], [], []),
+    'chain2': ([('A', 'OCC'), ('B', 'CNC'), ('D', 'CCF')], [((0, 2), (1, 0)), ((1, 2), (2, 0))], [], []),
+    'hub-front': ([('H', 'CCN'), ('A', 'OCC'), ('B', 'FCC')], [((0, 0), (1, 2)), ((0, 0), (2, 2))], [], []),
+    'hub-back': ([('H', 'NCC'), ('A', 'OCC'), ('B', 'CCF')], [((0, 2), (1, 2)), ((0, 2), (2, 0))], [], []),
+    'hub-front-v': ([('H', 'CCN'), ('A', 'OCC'), ('B', 'FCC')], [((0, 0), (1, 2)), ((0, 0), (2, 2))], [], [(1, 2)]),
+    'hub-bonded': ([('H', 'CCN'), ('A', 'CC'), ('B', 'CCC')], [((0, 0), (1, 1)), ((0, 0), (2, 2))], [((1, 0), (2, 0))], []),
+    'hub-bonded-back': ([('H', 'NCC'), ('A', 'CC'), ('B', 'COC')], [((0, 2), (1, 1)), ((0, 2), (2, 2))], [((1, 0), (2, 0))], []),
+    'pairwise': ([('A', 'OCC'), ('B', 'NCC'), ('D', 'CCF')], [((0, 2), (1, 2)), ((0, 2), (2, 0)), ((1, 2), (2, 0))], [], []),
+    'four': ([('H', 'C'), ('A', 'OC'), ('B', 'NC'), ('D', 'CF')], [((0, 0), (1, 1)), ((0, 0), (2, 1)), ((0, 0), (3, 0))], [], []),
+    'four-chain': ([('A', 'OC'), ('B', 'C'), ('D', 'CN'), ('E', 'CF')], [((0, 1), (1, 0)), ((1, 0), (2, 0)), ((2, 0), (3, 0))], [], []),
+    'two-hubs': ([('H', 'CCC'), ('A', 'OC'), ('B', 'NC'), ('D', 'CF'), ('E', 'CS')],
+                 [((0, 0), (1, 1)), ((0, 0), (2, 1)), ((0, 2), (3, 0)), ((0, 2), (4, 0))], [], []),
+}
+
+
+def _shared_case(dname, perm, all_atom, lead):
+    frags, shares, bonds, zero = SHARED_DESIGNS[dname]
+    n = len(frags)
+    labels = _labels()
+    descs = {i: {} for i in range(n)}
+    count = {}
+    for kind, pairs in (('!', shares), ('$', bonds)):
+        for (i, a), (j, b) in pairs:
+            lab = next(labels)
+            descs[i].setdefault(a, []).append('[%s%s]' % (kind, lab))
+            descs[j].setdefault(b, []).append('[%s%s]' % (kind, lab))
+            k = tuple(sorted((i, j)))
+            count[k] = count.get(k, 0) + 1
+    edges = [(i, j, c) for (i, j), c in sorted(count.items())] + [(i, j, 0) for i, j in zero]
+    # classes of template atoms
+    parent = {(i, a): (i, a) for i, (_, atoms) in enumerate(frags) for a in range(len(atoms))}
+
+    def find(x):
+        while parent[x] != x:
+            x = parent[x]
+        return x
+    for x, y in shares:
+        parent[find(y)] = find(x)
+    shared_atoms = {x for pair in shares for x in pair}
+    defs = []
+    for i, (name, atoms) in enumerate(frags):
+        t = ''
+        for a, sym in enumerate(atoms):
+            if all_atom:
+                tok = sym
+            else:
+                tok = '[#%s]' % ('s' if (i, a) in shared_atoms else '%s%d%d' % (_SH_CG[sym], i, a))
+            d = ''.join(descs[i].get(a, []))
+            t += (d + tok) if (a == 0 and lead) else (tok + d)
+        defs.append('#%s=%s' % (name, t))
+    ids = list(perm)
+    text, app = render_graph(ids, edges, {i: '[#%s]' % frags[i][0] for i in ids})
+    base = relabel_by_appearance([(i, frags[i][0]) for i in range(n)], edges, app)
+    key = {u: k for k, u in enumerate(app)}
+    classes = {}
+    for x in parent:
+        classes.setdefault(find(x), []).append(x)
+    roots = sorted(classes)
+    index = {r: k for k, r in enumerate(roots)}
+    atoms_out = []
+    for r in roots:
+        i, a = r
+        sym = frags[i][1][a]
+        name = sym if all_atom else ('s' if r in shared_atoms else '%s%d%d' % (_SH_CG[sym], i, a))
+        atoms_out.append({'name': name, 'members': sorted(key[j] for j, _ in classes[r]),
+                          'origin': sorted([key[j], b] for j, b in classes[r])})
+    ebonds = set()
+    for i, (_, atoms) in enumerate(frags):
+        for a in range(len(atoms) - 1):
+            ebonds.add(tuple(sorted((index[find((i, a))], index[find((i, a + 1))]))))
+    for x, y in bonds:
+        ebonds.add(tuple(sorted((index[find(x)], index[find(y)]))))
+    return {'id': 'shared/%s/%s/%s/%s' % (dname, ''.join(map(str, perm)), 'aa' if all_atom else 'cg', 'lead' if lead else 'trail'),
+            'base': base, 'base_str': '{' + text + '}', 'blocks': ['{' + ','.join(defs) + '}'], 'all_atom': all_atom,
+            'legacy': True, 'valid': True, 'design': 'shared', 'bonds': None, 'tags': ['shared'],
+            'expect': {'atoms': atoms_out, 'bonds': sorted([u, v, 1] for u, v in ebonds)}}
+
+
+def shared_cases(tier):
+    """Every design x every order of the coarse nodes in the base string (the order decides which of two merged atoms
+    survives and in which order merges happen) x all-atom / coarse x descriptors of a first atom written in front of it
+    or behind it.  Quick: all orders for designs with <= 3 fragments, 8 seeded ones above."""
+    seen = set()
+    for dname, (frags, _, _, _) in SHARED_DESIGNS.items():
+        n = len(frags)
+        perms = list(itertools.permutations(range(n)))
+        if n > 3:
+            rng = random.Random('shared|' + dname)
+            rng.shuffle(perms)
+            perms = perms[:8 if tier == 'quick' else 40]
+        for perm in perms:
+            for all_atom in (True, False):
+                for lead in (False, True):
+                    try:
+                        c = _shared_case(dname, perm, all_atom, lead)
+                    except ValueError:
+                        continue
+                    k = (full_string(c), all_atom)
+                    if k not in seen:
+                        seen.add(k)
+                        yield c
+
+
+# =========================================================================================== layered: reused names, `!` on two levels (C06)
+LAYERED_REUSE_HAND = [
+    ('reuse/first-member-cg', '{[#A][#B]}.{#A=[#A][#X][>],#B=[<][#Y]}.{#A=[#a1][#a2][>],#X=[<][#x][>],#Y=[<][#y]}',
+     '{[#A][#X][#Y]}.{#A=[#a1][#a2][>],#X=[<][#x][>],#Y=[<][#y]}', False),
+    ('reuse/first-member-aa', '{[#A][#B]}.{#A=[#A][#X][>],#B=[<][#Y]}.{#A=CC[>],#X=[<]CO[>],#Y=[<]N}',
+     '{[#A][#X][#Y]}.{#A=CC[>],#X=[<]CO[>],#Y=[<]N}', True),
+    ('reuse/pass-through-aa', '{[#L][#W]}.{#L=[#B][#C][>],#W=[<][#W]}.{#B=CC[>],#C=[<]C[>],#W=[<]O}',
+     '{[#B][#C][#W]}.{#B=CC[>],#C=[<]C[>],#W=[<]O}', True),
+    ('reuse/pass-through-cg', '{[#L][#W]}.{#L=[#B][#C][>],#W=[<][#W]}.{#B=[#b1][#b2][>],#C=[<][#c][>],#W=[<][#w1]=[#w2]}',
+     '{[#B][#C][#W]}.{#B=[#b1][#b2][>],#C=[<][#c][>],#W=[<][#w1]=[#w2]}', False),
+    ('reuse/three-levels', '{[#A][#B]}.{#A=[#A][#B][>],#B=[<][#C]}.{#A=[#A][>a],#B=[<a][#B][#D][>],#C=[<][#C]}.'
+     '{#A=OC[>],#B=[<]CC[>],#C=[<]CN,#D=[<]C(F)[>]}',
+     '{[#A][#B][#D][#C]}.{#A=OC[>],#B=[<]CC[>],#C=[<]CN,#D=[<]C(F)[>]}', True),
+]
+
+
+def layered_reuse_cases(tier):
+    """Layered strings in which a fragment NAME is defined on more than one level: every group of an intermediate level
+    is called like its first member (so a bead keeps its name while it is refined, and a bead handed through a level
+    unchanged reads `#N2=[#N2]...`); otherwise built exactly like layered_cases (one description -> grouped + flat)."""
+    for cid, s, flat, aa in LAYERED_REUSE_HAND:
+        i, j = s.index('}.{'), flat.index('}.{')
+        yield {'id': 'layered-hand/' + cid, 'base': None, 'base_str': s[:i + 1], 'blocks': _split_blocks(s[i + 2:]),
+               'all_atom': aa, 'legacy': True, 'valid': True, 'design': 'hand', 'bonds': None, 'tags': ['layered', 'hand', 'reused-names'],
+               'flat': {'base': None, 'base_str': flat[:j + 1], 'blocks': _split_blocks(flat[j + 2:])}}
+    max_n = 4 if tier == 'quick' else 5
+    for n, edges0 in connected_graphs(max_n, 2):
+        edges = [(u, v, 1) for u, v in edges0]
+        sid = 'g%d_%s' % (n, ''.join('%d%d%d' % e for e in edges))
+        for all_atom in (True, False):
+            for r in range(2 if tier == 'quick' else 4):
+                rng = random.Random('reuse|%s|%s|%d' % (sid, all_atom, r))
+                res = design_unique(rng, n, edges, all_atom, leftovers=False)
+                if res is None:
+                    continue
+                names, block, _ = res
+                levels = 1 if (n < 4 or r % 2 == 0) else 2
+                c = layered_from_two_level(rng, names, edges, block, all_atom, levels, 'reuse-%s.%d' % (sid, r), reuse_names=True)
+                if c:
+                    c['tags'] = c['tags'] + ['reused-names']
+                    yield c
+
+
+# beads of the bottom level for the `!`-on-two-levels family: left end atom, middle atoms, right end atom
+_LS_MIDS = [['O'], ['N'], ['S'], ['C', 'O'], ['C', 'N']]
+
+
+def _chain_groupings(n):
+    """Covers of the chain 0..n-1 by consecutive segments; two consecutive segments either share their boundary bead
+    ('!') or are disjoint ('cut').  Yields ([segment, ...], [boundary kind, ...])."""
+    def rec(start, must_extend_past):
+        for end in range(max(start, must_extend_past), n):
+            seg = list(range(start, end + 1))
+            if end == n - 1:
+                yield [seg], []
+                continue
+            if len(seg) >= 2:
+                for segs, kinds in rec(end, end + 1):
+                    yield [seg] + segs, ['!'] + kinds
+            for segs, kinds in rec(end + 1, end + 1):
+                yield [seg] + segs, ['cut'] + kinds
+    yield from rec(0, 0)
+
+
+def _layered_shared_case(n, links, segs, kinds, all_atom, sizes, cid):
+    """links[i]: '!' (beads i and i+1 share an atom) or 'b' (bonded); segs / kinds: the top grouping.  sizes[i] = number
+    of extra leading atoms of bead i (varies the atom indices at which the merges happen)."""
+    bead = ['B%d' % i for i in range(n)]
+    defs = []
+    for i in range(n):
+        syms = ['C'] * sizes[i] + ['C'] + _LS_MIDS[i % len(_LS_MIDS)] + ['C']
+        left = '' if i == 0 else ('[!s%d]' % (i - 1) if links[i - 1] == '!' else '[<b%d]' % (i - 1))
+        right = '' if i == n - 1 else ('[!s%d]' % i if links[i] == '!' else '[>b%d]' % i)
+        toks = []
+        for a, sym in enumerate(syms):
+            if all_atom:
+                toks.append(sym)
+            else:
+                nm = '%s%d%d' % (_SH_CG[sym], i, a)
+                if a == len(syms) - 1 and i < n - 1 and links[i] == '!':
+                    nm = 's%d' % i
+                if a == 0 and i > 0 and links[i - 1] == '!':
+                    nm = 's%d' % (i - 1)
+                toks.append('[#%s]' % nm)
+        # a bead has >= 3 atoms: the left descriptor is written in front of the first atom (and belongs to it), the right
+        # one behind the last atom
+        toks[0] = left + toks[0]
+        toks[-1] = toks[-1] + right
+        defs.append('#%s=%s' % (bead[i], ''.join(toks)))
+    bottom = '{' + ','.join(defs) + '}'
+    gdefs = []
+    gname = ['G%d' % g for g in range(len(segs))]
+    for g, seg in enumerate(segs):
+        t = ''
+        for m in seg:
+            t += '[#%s]' % bead[m]
+            if m == seg[0] and g > 0:
+                t += '[!t%d]' % (g - 1) if kinds[g - 1] == '!' else '[<c%d]' % (g - 1)
+            if m == seg[-1] and g < len(segs) - 1:
+                t += '[!t%d]' % g if kinds[g] == '!' else '[>c%d]' % g
+        gdefs.append('#%s=%s' % (gname[g], t))
+    middle = '{' + ','.join(gdefs) + '}'
+    chain = lambda k: [[i, i + 1, 1] for i in range(k - 1)]   # noqa
+    return {'id': 'layered-shared/%s/%s' % (cid, 'aa' if all_atom else 'cg'),
+            'base': {'nodes': [[g, gname[g]] for g in range(len(segs))], 'edges': chain(len(segs))},
+            'base_str': '{' + ''.join('[#%s]' % x for x in gname) + '}', 'blocks': [middle, bottom], 'all_atom': all_atom,
+            'legacy': True, 'valid': True, 'design': 'layered', 'bonds': None, 'tags': ['layered', 'shared'],
+            'flat': {'base': {'nodes': [[i, bead[i]] for i in range(n)], 'edges': chain(n)},
+                     'base_str': '{' + ''.join('[#%s]' % x for x in bead) + '}', 'blocks': [bottom]}}
+
+
+def layered_shared_cases(tier):
+    """`!` on two consecutive levels: a chain of 3..5 beads whose neighbours either share an end atom or are bonded
+    (bottom level), covered by segments that share their boundary bead or are disjoint (intermediate level).  The
+    flat string is the bead chain itself with the same bottom fragments; both are written from the same description.
+    Only groupings with a shared bead and bottom levels with a shared atom are generated (the rest is layered_cases)."""
+    for n in (3, 4, 5):
+        groupings = [(s, k) for s, k in _chain_groupings(n) if '!' in k]
+        for gi, (segs, kinds) in enumerate(groupings):
+            if n == 5 and tier == 'quick' and gi % 3:
+                continue
+            for li, links in enumerate(itertools.product('!b', repeat=n - 1)):
+                if '!' not in links:
+                    continue
+                if n >= 4 and tier == 'quick' and (li + gi) % 2:
+                    continue
+                for sv, sizes in enumerate(([0] * n, [1] + [0] * (n - 1), [(i + 1) % 2 for i in range(n)])):
+                    if n == 5 and sv != 1:
+                        continue
+                    for all_atom in (True, False):
+                        if n >= 4 and (sv + li + gi + all_atom) % 2 and tier == 'quick':
+                            continue
+                        yield _layered_shared_case(n, links, segs, kinds, all_atom, sizes,
+                                                   'n%d.g%d.%s.z%d' % (n, gi, ''.join(links), sv))
 
 
 # =========================================================================================== harness helpers
